@@ -290,7 +290,9 @@ def exec_dir(case):
                     ro_want = e["ro"]
                     if ro_want is not None and gotc["ro"] is not None:
                         g_ro, w_ro = gotc["ro"], ro_want
-                        for pfx in (b"ro.", b"imm."):
+                        # an unknown cap stored without a prefix is shown with "ro." (documented); "imm." is part of the
+                        # capability (it asserts deep immutability) and has to come back unchanged
+                        for pfx in (b"ro.",):
                             if g_ro.startswith(pfx):
                                 g_ro = g_ro[len(pfx):]
                             if w_ro.startswith(pfx):
